@@ -317,6 +317,64 @@ macro_rules! array_zeros {
     };
 }
 
+/// array-form cancellation with parts at every scale gap: poly1 with [P; 4] coefficients, c0 = [p1, p2, 0, 0] where p2 lies
+/// g binades from p1 (every g), c1 = the exact value of -(x*p1 + x*p2) peeled into four posits (each the remaining sum
+/// rounded), so that the result is the tiny remainder and every bit the accumulation of the parts loses is visible
+macro_rules! poly_gaps_cell {
+    ($v:ident, $P:ty) => {{
+        let n = <$P as Fx>::N;
+        let es = <$P as Fx>::ES;
+        let lim = (n as i32 - 2) * (1 << es) - 1;
+        let m: u32 = if n == 32 { u32::MAX } else { (1u32 << n) - 1 };
+        let one = 1u32 << (n - 2);
+        let xs: Vec<u32> = vec![one | 1, one + (one >> 1) + 1, ((one << 1) - 1).wrapping_neg() & m];
+        let anchors: Vec<i32> = vec![-lim / 3, 0, lim / 3, lim / 2];
+        let gaps: Vec<i32> = (-(2 * lim)..=(2 * lim)).collect();
+        let (na, ng, nx) = (anchors.len() as u64, gaps.len() as u64, xs.len() as u64);
+        $v.push(CellDef::new(
+            "C18",
+            format!("{}/poly1[4]#gaps", <$P as Fx>::NAME),
+            Space::func(na * ng * nx * 3 * 6 * 3, format!("{} anchors x {} gaps x {} x values x 3 fraction shapes x 6 part orders x third part {{none, 26, 40 binades above}}; c1 = -(x*c0) peeled into four posits", na, ng, nx), |i| i as u128),
+            move |key| {
+                let mut r = key as u64;
+                let third = r % 3;
+                r /= 3;
+                let perm = [[0usize, 1, 2], [0, 2, 1], [1, 0, 2], [1, 2, 0], [2, 0, 1], [2, 1, 0]][(r % 6) as usize];
+                r /= 6;
+                let shape = r % 3;
+                r /= 3;
+                let x = xs[(r % nx) as usize];
+                r /= nx;
+                let g = gaps[(r % ng) as usize];
+                let a = anchors[(r / ng) as usize];
+                let mk = |scale: i32| -> Option<u32> {
+                    if scale.abs() > lim { return None; }
+                    vpcore::alpha::build(n, es, scale, |nf| { let full = if nf == 0 { 0 } else { ((1u64 << nf) - 1) as u32 }; match shape { 0 => 0, 1 => 1 & full, _ => full } })
+                };
+                let (Some(p1), Some(p2)) = (mk(a), mk(a - g)) else { return Out::skip() };
+                let p3 = match third { 0 => 0, 1 => mk((a + 26).min(lim)).unwrap_or(0), _ => mk((a + 40).min(lim)).unwrap_or(0) };
+                let base = [p1, p2, p3];
+                let c0 = [base[perm[0]], base[perm[1]], base[perm[2]], 0];
+                // exact x*p1 + x*p2 + x*p3, peeled into four posits
+                let (Some(w1), Some(w2), Some(w3)) = (prod(n, es, x, p1), prod(n, es, x, p2), prod(n, es, x, p3)) else { return Out::skip() };
+                let mut rest = w1.add(w2).add(w3);
+                let mut c1 = [0u32; 4];
+                for t in 0..4 {
+                    if rest.is_zero() { break; }
+                    let (q, _) = o::round_ex(n, es, rest.to_ex(240));
+                    c1[t] = q.wrapping_neg() & m;
+                    match prod(n, es, q, one) { Some(w) => rest = rest.sub(w), None => break }
+                }
+                let c: Vec<u32> = c0.iter().chain(c1.iter()).copied().collect();
+                let cvec: Vec<Vec<u32>> = vec![c0.to_vec(), c1.to_vec()];
+                let (want, nt) = ref_poly(n, es, "1", x, &cvec);
+                let got = guard(|| poly_call!(a, $P, 2, poly1, 4, x, c));
+                Out::cmp(got, want as u128, nt)
+            },
+        ));
+    }};
+}
+
 macro_rules! all_degrees_zeros {
     ($v:ident, $P:ty, $xs:expr) => {
         poly_zeros_cell!($v, $P, 2, poly1, "1", $xs);
@@ -467,6 +525,9 @@ pub fn cells(thorough: bool) -> Vec<CellDef> {
         all_degrees_zeros!(v, P8E0, xz(8));
         all_degrees_zeros!(v, P16E1, xz(16));
         all_degrees_zeros!(v, P32E2, xz(32));
+        poly_gaps_cell!(v, P8E0);
+        poly_gaps_cell!(v, P16E1);
+        poly_gaps_cell!(v, P32E2);
         array_zeros!(v, P8E0, xz(8));
         array_zeros!(v, P16E1, xz(16));
         array_zeros!(v, P32E2, xz(32));
